@@ -184,7 +184,7 @@ def check(run):
         run.add_corr_break("G: " + gerr)
     run.proof = core.proof_step(PROP, run.tier)
     for v in source_frame_check():
-        run.add_corr_break("G: frame property of Read/Write (C19_io_read_frame / _write_frame) not matched by the source: " + v)
+        run.add_corr_break("G: frame property of Read/Write (C19_io_read_frame / _write_frame) not matched by the source: " + v, shape=v.startswith("cannot find"))
     n = 40 if run.tier == "quick" else 1200
     cases, err, out = run_harness(n, run.seed, run.tier)
     if err:
